@@ -513,6 +513,7 @@ class Explorer:
         self.samples = []
         self.sample_paths = sample_paths
         self.n = 0
+        self.last_info = None
         self.depth_limit = None        # set while enumerating decision prefixes for partitioning
         self.forced = {}               # choice name -> fixed value (used to partition a harness over jobs)
         self.path_hook = None          # called (ex) at the end of each completed path (concolic self-check)
@@ -655,6 +656,7 @@ class Explorer:
     def require(self, cond__, msg, **info):
         """oracle assertion: the property demands cond__ on every input of this path"""
         self.reached_flag = True
+        self.last_info = info
         e = z3.simplify(zb(cond__))
         if z3.is_true(e):
             return
